@@ -83,6 +83,8 @@ class Params:
     enum_no_zero: float = 0.0
     semicolons: float = 0.3
     options: float = 0.3
+    same_line: float = 0.0        # probability that a one-line statement is written BEHIND the previous one
+                                  # (`const A = 4; const B = 8`): several definitions on one physical line
 
 
 class Printer:
@@ -90,6 +92,23 @@ class Printer:
         self.f = FileOut(name=name, proto=proto)
         self.findex = findex
         self.lines: List[str] = []
+        self.joinable = False          # the last line is a one-line statement without a comment
+        self.ends_semicolon = False
+        self.pending: Optional[str] = None
+
+    def put(self, col0: int, body: str) -> Tuple[int, int]:
+        """write a one-line statement whose first character stands at column offset col0: on a new line
+        (col0 spaces before it) or, when Gen.place decided so, behind the previous statement of the last line"""
+        if self.pending is not None:
+            assert len(self.lines[-1]) + len(self.pending) == col0
+            self.lines[-1] += self.pending + body
+            self.pending = None
+            line, off = len(self.lines), sum(len(l) + 1 for l in self.lines[:-1])
+        else:
+            line, off = self.emit(" " * col0 + body)
+        self.joinable = "//" not in body
+        self.ends_semicolon = body.rstrip().endswith(";")
+        return line, off
 
     def offset_of_line(self) -> int:
         return sum(len(l) + 1 for l in self.lines)
@@ -98,6 +117,8 @@ class Printer:
         """append a line; returns (1-based line number, absolute offset of its first char)"""
         off = self.offset_of_line()
         self.lines.append(s)
+        self.joinable = False
+        self.pending = None
         return len(self.lines), off
 
     def finish(self) -> FileOut:
@@ -113,6 +134,8 @@ class Gen:
         self.uid = 0
         self.cur_markers = 0.0
         self.cur_perturb = 0.0
+        self.force_join = False
+        self.no_comment = False
         self.files: List[FileOut] = []
 
     # ---- names ---------------------------------------------------------------------------
@@ -190,8 +213,24 @@ class Gen:
             return max(0, base + self.rng.choice([-4, -2, -1, 1, 2, 3, 4, 8]))
         return base
 
+    def place(self, pr: Printer, depth: int) -> int:
+        """column offset at which the next one-line statement starts: its own line (indented), or behind the
+        previous statement of the current line, separated by `;` (or by a blank when that one ends with `;`,
+        rarely by a blank alone - the grammar needs no separator)"""
+        r = self.rng
+        if pr.joinable and (self.force_join or r.random() < self.p.same_line):
+            if pr.ends_semicolon:
+                sep = r.choice([" ", "  ", ""])
+            else:
+                sep = r.choice(["; ", "; ", " ; ", ";", " "])
+            pr.pending = sep
+            return len(pr.lines[-1]) + len(sep)
+        return self.ind(depth)
+
     def noise(self, pr: Printer, depth: int) -> None:
         r = self.rng
+        if self.force_join:
+            return
         if r.random() < self.p.blanks:
             pr.emit("" if r.random() < 0.7 else " " * r.randint(1, 6))
         if r.random() < self.p.comments:
@@ -200,6 +239,8 @@ class Gen:
 
     def tail(self) -> str:
         r = self.rng
+        if self.no_comment:
+            return ";" if r.random() < self.p.semicolons else ""
         s = ";" if r.random() < self.p.semicolons else ""
         if r.random() < self.p.comments * 0.5:
             s += " // " + r.choice(["trailing", "uint8 y = 2", "'"])
@@ -261,10 +302,10 @@ class Gen:
         members: List[Def] = []
         for v in vals:
             self.noise(pr, depth + 1)
-            mind = self.ind(depth + 1)
+            mind = self.place(pr, depth + 1)
             mname = self.name_for("enum_field")
             lit = (hex(v) if r.random() < 0.3 else str(v))
-            l2, o2 = pr.emit(" " * mind + mname + " = " + lit + self.tail())
+            l2, o2 = pr.put(mind, mname + " = " + lit + self.tail())
             members.append(self.add_def(pr, "enum_field", mname, l2, o2, mind, mind, depth + 1, qual + [name, mname]))
         self.noise(pr, depth + 1)
         pr.emit(" " * (4 * (depth - 1)) + "}")
@@ -310,16 +351,16 @@ class Gen:
                 local_types.append((n2, "enum"))
             elif what == "option":
                 self.noise(pr, depth + 1)
-                oind = self.ind(depth + 1)
-                l2, o2 = pr.emit(" " * oind + "option max_bytes = " + str(r.choice([0, 4000, 8191])) + self.tail())
+                oind = self.place(pr, depth + 1)
+                l2, o2 = pr.put(oind, "option max_bytes = " + str(r.choice([0, 4000, 8191])) + self.tail())
                 inner.append(self.add_def(pr, "option", "max_bytes", l2, o2, oind, oind + 7, depth + 1,
                                           qual + [name, "max_bytes"]))
             else:
                 self.noise(pr, depth + 1)
-                find = self.ind(depth + 1)
+                find = self.place(pr, depth + 1)
                 ttext, trefs, tflags = self.type_expr(pr, local_types, consts)
                 fname = self.name_for("message_field")
-                l2, o2 = pr.emit(" " * find + ttext + " " + fname + " = " + str(numbers[fi]) + self.tail())
+                l2, o2 = pr.put(find, ttext + " " + fname + " = " + str(numbers[fi]) + self.tail())
                 fi += 1
                 for tok, toff in trefs:
                     pr.f.refs.append(Ref(tok, pr.findex, l2, find + toff + 1, o2 + find + toff))
@@ -384,17 +425,26 @@ class Gen:
                 visible.append(((alias or self.files[ix].proto) + "." + t, "imported"))
         if r.random() < self.p.options:
             self.noise(pr, 1)
-            ind = self.ind(1)
-            l, o = pr.emit(" " * ind + "option c.struct_packing_alignment = " + str(r.choice([0, 1, 2, 4, 8])) + self.tail())
+            ind = self.place(pr, 1)
+            l, o = pr.put(ind, "option c.struct_packing_alignment = " + str(r.choice([0, 1, 2, 4, 8])) + self.tail())
             top.append(self.add_def(pr, "option", "c.struct_packing_alignment", l, o, ind, ind + 7, 1,
                                     ["c.struct_packing_alignment"]))
         plan = ["message"] * n_msgs + ["constant"] * r.randint(0, 2) + ["alias"] * r.randint(0, 2) + ["enum"] * r.randint(0, 2)
         r.shuffle(plan)
+        if self.p.same_line > 0 and r.random() < 0.7:
+            # two (or three) renderable definitions on ONE physical line: `const W = 4; const H = 8`,
+            # `type Row = uint8[4]; type Cell = uint8`, a constant followed by an alias, ...
+            k = r.randint(0, len(plan))
+            plan[k:k] = [r.choice(["constant", "alias"])] + ["+" + r.choice(["constant", "alias"])
+                                                              for _ in range(r.choice([1, 1, 2]))]
         top_msgs = 0
-        for what in plan:
+        for pi_, what in enumerate(plan):
+            self.force_join = what.startswith("+")
+            self.no_comment = pi_ + 1 < len(plan) and plan[pi_ + 1].startswith("+")
+            what = what.lstrip("+")
             if what == "constant":
                 self.noise(pr, 1)
-                ind = self.ind(1)
+                ind = self.place(pr, 1)
                 nm = self.name_for("constant")
                 rhs_kind = r.random()
                 reftok = None
@@ -404,8 +454,9 @@ class Gen:
                 elif rhs_kind < 0.8:
                     rhs = str(r.randint(1, 6))
                 else:
-                    rhs = r.choice(['"text"', "true", "no"])
-                l, o = pr.emit(" " * ind + "const " + nm + " = " + rhs + self.tail())
+                    rhs = r.choice(['"text"', "true", "no", r'"up\ndown"', r'"a\tb\\c"', r'"say \"hi\"\n"',
+                                    r'"\n\n"', r'"it\'s"', r'"cr\rlf\n"'])
+                l, o = pr.put(ind, "const " + nm + " = " + rhs + self.tail())
                 if reftok:
                     c0 = ind + 6 + len(nm) + 3
                     pr.f.refs.append(Ref(reftok, findex, l, c0 + 1, o + c0))
@@ -414,7 +465,7 @@ class Gen:
                     consts.append(nm)
             elif what == "alias":
                 self.noise(pr, 1)
-                ind = self.ind(1)
+                ind = self.place(pr, 1)
                 nm = self.name_for("alias")
                 base = self.base_type()
                 ttext = base
@@ -423,7 +474,7 @@ class Gen:
                     m = self.marker()
                     flags.append(m)
                     ttext = f"{base}[{r.randint(1, 6)}]" + ("'" if m else "")
-                l, o = pr.emit(" " * ind + "type " + nm + " = " + ttext + self.tail())
+                l, o = pr.put(ind, "type " + nm + " = " + ttext + self.tail())
                 for fl in flags:
                     pr.f.flags.append(("flag", fl, l))
                 top.append(self.add_def(pr, "alias", nm, l, o, ind, ind + 5, 1, [nm]))
@@ -436,6 +487,7 @@ class Gen:
                                       self.p.max_nested if top_msgs < 2 else 0)
                 top_msgs += 1
                 visible.append((nm, "message"))
+        self.force_join = self.no_comment = False
         if r.random() < 0.3:
             pr.emit("// end of file")
         f = pr.finish()
@@ -519,6 +571,68 @@ class Schema:
                                  defs=[Def(**d) for d in f["defs"]], refs=[Ref(**x) for x in f["refs"]],
                                  flags=[tuple(x) for x in f["flags"]], imports=list(f["imports"])))
         return Schema(files)
+
+
+# ---- schemas with a prescribed number of lint warnings (boundary catalogue of `-c` exit statuses) ----
+
+def warn_schema(rng: random.Random, n: int) -> "Schema":
+    """A valid one-file schema whose definitions violate the style guide in exactly n places, one warning
+    each (lower-case constants and enum members, non-Pascal aliases, non-snake fields), mixed with conforming
+    definitions.  The expected warning list still comes from the Coq model; n only steers the size."""
+    g = Gen(rng, Params(comments=0.0, blanks=0.0, semicolons=0.2))
+    pr = Printer(0, "root.bitproto", "root")
+    top: List[Def] = []
+    pr.emit("proto root")
+    parts = [0, 0, 0, 0]                    # constants, aliases, enum members, message fields
+    caps = [10 ** 6, 10 ** 6, 250, 200]
+    for _ in range(n):
+        k = rng.choice([0, 0, 1, 2, 3])
+        if parts[k] >= caps[k]:
+            k = 0
+        parts[k] += 1
+    def bad_or_good(i: int, count: int, total: int) -> bool:
+        return i < count
+    # constants
+    n_good = rng.randint(0, 3)
+    flags = [True] * parts[0] + [False] * n_good
+    rng.shuffle(flags)
+    for i, bad in enumerate(flags):
+        nm = (rng.choice(["lim", "cfg", "maxVal", "k"]) + str(i)) if bad else f"LIMIT_{i}"
+        l, o = pr.put(0, "const " + nm + " = " + str(rng.randint(1, 9)) + g.tail())
+        top.append(g.add_def(pr, "constant", nm, l, o, 0, 6, 1, [nm]))
+    flags = [True] * parts[1] + [False] * rng.randint(0, 2)
+    rng.shuffle(flags)
+    for i, bad in enumerate(flags):
+        nm = (rng.choice(["word", "my_type", "t"]) + str(i)) if bad else f"Word{i}"
+        l, o = pr.put(0, "type " + nm + " = uint" + str(rng.randint(1, 32)) + g.tail())
+        top.append(g.add_def(pr, "alias", nm, l, o, 0, 5, 1, [nm]))
+    if parts[2]:
+        line, off = pr.emit("enum Kind : uint16 {")
+        flags = [True] * parts[2] + [False] * rng.randint(1, 3)
+        rng.shuffle(flags)
+        members = []
+        for i, bad in enumerate(flags):
+            nm = (rng.choice(["item", "Case", "opt_x"]) + str(i)) if bad else f"ITEM_{i}"
+            l, o = pr.put(4, nm + " = " + str(i) + g.tail())
+            members.append(g.add_def(pr, "enum_field", nm, l, o, 4, 4, 2, ["Kind", nm]))
+        pr.emit("}")
+        top.extend(members)
+        top.append(g.add_def(pr, "enum", "Kind", line, off, 0, 5, 1, ["Kind"], values=list(range(len(flags)))))
+    if parts[3]:
+        line, off = pr.emit("message Wide {")
+        flags = [True] * parts[3] + [False] * rng.randint(1, 3)
+        rng.shuffle(flags)
+        fields = []
+        for i, bad in enumerate(flags):
+            nm = (rng.choice(["Fld", "someField", "X"]) + str(i)) if bad else f"fld_{i}"
+            l, o = pr.put(4, "bool " + nm + " = " + str(i + 1) + g.tail())
+            fields.append(g.add_def(pr, "message_field", nm, l, o, 4, 9, 2, ["Wide", nm]))
+        pr.emit("}")
+        top.extend(fields)
+        top.append(g.add_def(pr, "message", "Wide", line, off, 0, 8, 1, ["Wide"]))
+    f = pr.finish()
+    f.defs = top
+    return Schema([f])
 
 
 # ---- single-violation mutants (error positions) ------------------------------------------------
